@@ -784,7 +784,7 @@ pub fn execution_body() {
                 OpKind::Alpha(a) => a.src.iter().chain(std::iter::once(&a.dst)).collect(),
                 _ => vec![],
             };
-            imgs.iter().any(|i| i.kind.is_sim())
+            imgs.iter().any(|i| i.kind.is_harness())
         })
     });
     events::reset(keep);
